@@ -70,7 +70,10 @@ class Sim(object):
         self.now = start
         self.ncalls = 0
         self.log = []                   # (t_rel, name, detail)
-        self.actions = sorted([dict(a) for a in actions], key=lambda a: a['t'])
+        # time-stamped actions, and actions pinned to the reader's n-th interposed call ('at_call': they fire
+        # right before that call is carried out, whatever the clock says)
+        self.actions = sorted([dict(a) for a in actions if 'at_call' not in a], key=lambda a: a['t'])
+        self.call_actions = sorted([dict(a) for a in actions if 'at_call' in a], key=lambda a: a['at_call'])
         self.pending_out = b''
         self.close_requested = False
         self.peer_closed = False
@@ -110,6 +113,8 @@ class Sim(object):
     def tick(self, name, detail=None):
         self.now += TICK
         self.ncalls += 1
+        while self.call_actions and self.call_actions[0]['at_call'] <= self.ncalls:
+            self.apply(self.call_actions.pop(0))
         self.log.append((round(self.rel(), 9), name, detail))
         self.fire_due()
 
